@@ -188,6 +188,14 @@ def _worker(task):
                         native = bool(nat and nat[0])
                     except Exception:
                         native = None
+                    if any(f.startswith("exception:") for f in failures) and not (
+                            native and nat and any(f.startswith("exception:") for f in nat[0])):
+                        # an exception that only arises with proxy / exact-rational numbers is an engine limit, not a verdict
+                        st["nonrepro"] += 1
+                        st["inconclusive"] += 1
+                        r = "exception not reproduced with native int/float inputs: " + ",".join(failures)[:100]
+                        st["inconclusive_reasons"][r] = st["inconclusive_reasons"].get(r, 0) + 1
+                        continue
                     cls = None
                     if unit.classify:
                         try:
